@@ -483,6 +483,16 @@ def exchange (tbl : List SealRec) (inst : Inst) (req : Req) : Inst × Outcome :=
           | (c, .error e) => ({ inst with cache := c }, refuse 400 e)
           | (c, .ok rc) => ({ inst with cache := c }, dispatch tbl { inst with cache := c } req mi cur rc)
 
+/-- Which tokens `handleStreamExchange` works with when the posted batch is an external-location
+pointer and the server has an external-location config (`ext`): the pointer batch's tokens are
+read first; unless the request is a cancel, the uploaded batch is fetched and ITS cursor / call
+token, when present, supersede the pointer's. Everything downstream (opening, method binding,
+resolution) sees only the result. -/
+def effectiveTokens (ext cancel : Bool) (cur call xcur xcall : Option Bytes) : Option Bytes × Option Bytes :=
+  if ext && !cancel then
+    (match xcur with | some t => some t | none => cur, match xcall with | some t => some t | none => call)
+  else (cur, call)
+
 /-- A request is *accepted* when the stream state was handed to dispatch. -/
 def Outcome.accepted (o : Outcome) : Prop := o.err = none
 
